@@ -36,6 +36,20 @@ SELF_WRITES_TABLE = {
 }
 
 
+def _group(rep, fn, *args):
+    """One group of rules: "cannot analyse" (also an unexpected shape that trips the rule's own code) is a gap of this
+    group, never a crash and never a verdict; the other groups still run."""
+    def wrapped():
+        try:
+            return fn(*args)
+        except AnalysisError:
+            raise
+        except Exception as e:   # a shape the rule did not anticipate
+            raise AnalysisError('%s: unexpected construct (%s: %s)' % (fn.__name__, type(e).__name__, e))
+    wrapped.__name__ = fn.__name__
+    return rep.guard(wrapped)
+
+
 def run(rep):
     repo = rep.repo
     app, route = repo.mod(APP), repo.mod(ROUTE)
@@ -50,7 +64,169 @@ def run(rep):
     rep.rule('R12.d', 'inventory of per-request self-writes in built-in middlewares')
 
     rp = RequestPath(repo)
-    check_no_shared_store(rep, 'R12.a', rp)
+    _group(rep, check_no_shared_store, rep, 'R12.a', rp)
+    _group(rep, check_generated_code, rep)
+    _group(rep, check_route_immutable, rep, route)
+    # ---- R12.c -----------------------------------------------------------
+    _group(rep, check_request_ids, rep, rp, app)
+
+    _group(rep, check_middleware_self_writes, rep)
+
+
+# ---- R12.c: request ids ---------------------------------------------------------------------------------------------
+def _is_counter_ctor(v):
+    """``itertools.count()`` / ``count()`` without arguments."""
+    return isinstance(v, ast.Call) and norm(v.func) in ('itertools.count', 'count') and not v.args and not v.keywords
+
+
+def _request_id_stores(repo):
+    """Every construct in the analysed tree that stores the attribute ``request_id``: (module, FuncInfo or None, statement,
+    receiver expr, value expr or None)."""
+    out = []
+    for m in repo.all_internal_modules():
+        owner = {}
+        for fi in m.functions.values():
+            for n in walk_body(fi.node):
+                owner.setdefault(id(n), fi)
+        for n in ast.walk(m.tree):
+            recv = []
+            if isinstance(n, ast.Assign):
+                for t0 in n.targets:
+                    for t in effects._targets(t0):
+                        if isinstance(t, ast.Attribute) and t.attr == 'request_id':
+                            recv.append((t.value, n.value if t is t0 else None))
+            elif isinstance(n, (ast.AugAssign, ast.AnnAssign)) and isinstance(n.target, ast.Attribute) and n.target.attr == 'request_id':
+                recv.append((n.target.value, n.value if isinstance(n, ast.AnnAssign) else None))
+            elif isinstance(n, (ast.For, ast.With)):
+                tg = [n.target] if isinstance(n, ast.For) else [i.optional_vars for i in n.items if i.optional_vars is not None]
+                for t0 in tg:
+                    for t in effects._targets(t0):
+                        if isinstance(t, ast.Attribute) and t.attr == 'request_id':
+                            recv.append((t.value, None))
+            elif isinstance(n, ast.Call) and isinstance(n.func, ast.Name) and n.func.id == 'setattr' and len(n.args) == 3 and \
+                    isinstance(n.args[1], ast.Constant) and n.args[1].value == 'request_id':
+                recv.append((n.args[0], n.args[2]))
+            for r, v in recv:
+                out.append((m, owner.get(id(n)), n, r, v))
+    return out
+
+
+def _never_referenced(repo, fi):
+    """A private function whose name occurs nowhere in the analysed tree except in its own ``def``: nothing can call
+    it (what is left of a helper after the front-end dissolved it into its callers)."""
+    name = fi.name
+    if not name.startswith('_') or (name.startswith('__') and name.endswith('__')):
+        return False
+    for m in repo.all_internal_modules():
+        for n in ast.walk(m.tree):
+            if isinstance(n, ast.Name) and n.id == name:
+                return False
+            if isinstance(n, ast.Attribute) and n.attr == name:
+                return False
+            if isinstance(n, ast.Constant) and isinstance(n.value, str) and name in n.value:
+                return False
+            if isinstance(n, ast.alias) and name in (n.name, n.asname):
+                return False
+            if isinstance(n, ast.keyword) and n.arg == name:
+                return False
+    return True
+
+
+def _fresh_request_receiver(rp, fi, name, depth=0):
+    """Is local / parameter ``name`` of fi the request object this activation of the request path built from its own
+    environ?  -> (ok, function that builds it, building statement).  A parameter is followed to every caller."""
+    from ..astutil import assigned_value
+    if name in fi.params():
+        if depth > 3:
+            return False, None, None
+        idx = fi.params().index(name)
+        callers = [e for e in rp.cg.callers(fi) if e.kind in ('call', 'self', 'classattr', 'role', 'cha') and isinstance(e.node, ast.Call)]
+        if not callers:
+            return False, None, None
+        found = None
+        for e in callers:
+            call = e.node
+            static = any(isinstance(d, ast.Name) and d.id == 'staticmethod' for d in fi.node.decorator_list)
+            shift = 1 if (fi.cls is not None and not static and isinstance(call.func, ast.Attribute)) else 0
+            from ..astutil import argn
+            a = argn(call, name, idx - shift if idx - shift >= 0 else None)
+            if not isinstance(a, ast.Name):
+                return False, None, None
+            ok, bf, bs = _fresh_request_receiver(rp, e.caller, a.id, depth + 1)
+            if not ok:
+                return False, None, None
+            found = (bf, bs)
+        return True, found[0], found[1]
+    vals = assigned_value(fi.node, name)
+    if len(vals) != 1:
+        return False, None, None
+    st, v, idx = vals[0]
+    env = [p for p in fi.params() if p not in ('self', 'cls')]
+    ok = idx is None and isinstance(v, ast.Call) and norm(v.func) == 'self.request_type' and len(v.args) == 1 and not v.keywords and \
+        isinstance(v.args[0], ast.Name) and v.args[0].id in env
+    return ok, fi, st
+
+
+def check_request_ids(rep, rp, app):
+    """The judgement is about the request path, not about a function name: the process-wide counter is advanced in exactly
+    one place that can run while a request is served, and the value lands on the request object that activation built."""
+    repo = rep.repo
+    dw = app.func('Application._dispatch_wsgi')
+    stores = _request_id_stores(repo)
+    live = [s for s in stores if s[1] is None or not _never_referenced(repo, s[1])]
+    dead = [s for s in stores if s not in live]
+    # which counter?
+    ctr = None
+    if len(live) == 1 and isinstance(live[0][4], ast.Call) and norm(live[0][4].func) == 'next' and len(live[0][4].args) == 1 and \
+            isinstance(live[0][4].args[0], ast.Name) and live[0][1] is not None:
+        nm = live[0][4].args[0].id
+        fi_ = live[0][1]
+        shadowed = nm in fi_.params() or any(isinstance(n, ast.Name) and n.id == nm and isinstance(n.ctx, ast.Store) for n in ast.walk(fi_.node))
+        kind, cm, obj = repo.resolve(fi_.mod, nm)
+        if not shadowed and kind == 'value' and cm is not None and not cm.external:
+            ctr = (nm, cm, obj)
+    cname, cmod = (ctr[0], ctr[1]) if ctr else ('_REQ_ID_ITER', app)
+    vals = cmod.assigns.get(cname, [])
+    ok = len(vals) == 1 and _is_counter_ctor(vals[0])
+    rep.check('R12.c', '%s::_REQ_ID_ITER' % APP, ok, '%s is one module-level itertools.count()' % cname if ok else
+              '%s is not a single module-level itertools.count(): %s' % (cname, [norm(v) if v is not None else '?' for v in vals]), cmod)
+    rebinds = []
+    for m in repo.all_internal_modules():
+        for n_ in ast.walk(m.tree):
+            if isinstance(n_, ast.Global) and cname in n_.names:
+                rebinds.append((m, n_))
+            if isinstance(n_, ast.Attribute) and n_.attr == cname and isinstance(n_.ctx, (ast.Store, ast.Del)):
+                rebinds.append((m, n_))
+            if isinstance(n_, ast.Call) and isinstance(n_.func, ast.Name) and n_.func.id in ('setattr', 'delattr') and len(n_.args) >= 2 and \
+                    isinstance(n_.args[1], ast.Constant) and n_.args[1].value == cname:
+                rebinds.append((m, n_))
+    rep.check('R12.c', 'clastic::_REQ_ID_ITER rebinding', not rebinds, 'the counter is never rebound or reset' if not rebinds else
+              'the request-id counter is rebound at %s' % ['%s:%s' % (m.relpath, n_.lineno) for m, n_ in rebinds], app)
+    on_path = len(live) == 1 and live[0][1] is not None and live[0][1] in rp.reach
+    ok = ctr is not None and on_path
+    rep.check('R12.c', 'clastic::request_id source', ok,
+              'request_id is assigned in one place on the request path (%s), from next(%s)%s' %
+              (live[0][1].qualname, cname, '; %d further store(s) only in functions nothing refers to' % len(dead) if dead else '') if ok else
+              'request_id is assigned from something other than next(_REQ_ID_ITER) in exactly one place on the request path: %s'
+              % ['%s: %s' % (f.qualname if f is not None else m.name, short(s)) for m, f, s, _, _ in live], app,
+              live[0][2] if live else None)
+    if not live:
+        return
+    sfi = live[0][1] if on_path else dw
+    recvs = sorted(set(norm(s[3]) for s in live if s[1] is sfi and isinstance(s[3], ast.Name)))
+    rq = recvs[0] if len(recvs) == 1 else 'request'
+    gs = [s for s in stmts_of(sfi.node) if isinstance(s, ast.Assign) and any(isinstance(t, ast.Attribute) and t.attr == 'request_guid' for t in s.targets)]
+    ok = len(gs) == 1 and len(gs[0].targets) == 1 and norm(gs[0].targets[0].value) == rq and isinstance(gs[0].value, ast.Call) and \
+        call_name(gs[0].value) == 'int2hexguid' and [norm(a) for a in gs[0].value.args] == ['%s.request_id' % rq] and not gs[0].value.keywords
+    rep.check('R12.c', fkey(sfi, 'request_guid'), ok, 'request_guid derives from this request\'s id' if ok else
+              'request_guid does not derive from %s.request_id' % rq, sfi.mod, gs[0] if gs else sfi.node)
+    ok, bf, bs = _fresh_request_receiver(rp, sfi, rq)
+    rep.check('R12.c', fkey(sfi, 'fresh request'), ok, 'every call builds its own request object from its own environ' if ok else
+              'the request object that receives the id is not freshly built from this call\'s environ', sfi.mod, bs if bs is not None else sfi.node)
+
+
+def check_generated_code(rep):
+    repo = rep.repo
     # generated code
     fi, te, parts, stop, main = chain.analyse_level_template(repo)
     r, text = chain._render_level(repo, fi, parts, 0)
@@ -87,6 +263,10 @@ def run(rep):
         rep.check('R12.a', 'generated::%s closure' % label, closed == want, 'closes over %s only' % want if closed == want else
                   'generated %s reads free names %s (expected %s)' % (label, closed, want), mod_, node)
 
+
+
+def check_route_immutable(rep, route):
+    repo = rep.repo
     # ---- R12.b -----------------------------------------------------------
     br = route.cls('BoundRoute')
     for name, m in sorted(br.methods.items()):
@@ -108,39 +288,10 @@ def run(rep):
     rep.ok('R12.b', 'clastic::stores through route-typed names', 'no store through %s (%d found)' % (sorted(route_roles), n))
     rep.floor('R12.b', 6)
 
-    # ---- R12.c -----------------------------------------------------------
-    vals = app.assigns.get('_REQ_ID_ITER', [])
-    ok = len(vals) == 1 and isinstance(vals[0], ast.Call) and norm(vals[0].func) in ('itertools.count', 'count') and not vals[0].args
-    rep.check('R12.c', '%s::_REQ_ID_ITER' % APP, ok, '_REQ_ID_ITER is one module-level itertools.count()' if ok else
-              '_REQ_ID_ITER is not a single module-level itertools.count(): %s' % [norm(v) for v in vals], app)
-    rebinds = []
-    for m in repo.all_internal_modules():
-        for n_ in ast.walk(m.tree):
-            if isinstance(n_, ast.Global) and '_REQ_ID_ITER' in n_.names:
-                rebinds.append((m, n_))
-            if isinstance(n_, ast.Attribute) and n_.attr == '_REQ_ID_ITER' and isinstance(n_.ctx, ast.Store):
-                rebinds.append((m, n_))
-    rep.check('R12.c', 'clastic::_REQ_ID_ITER rebinding', not rebinds, 'the counter is never rebound or reset' if not rebinds else
-              'the request-id counter is rebound at %s' % ['%s:%s' % (m.relpath, n_.lineno) for m, n_ in rebinds], app)
-    stores = []
-    for m in repo.all_internal_modules():
-        for fi2 in m.functions.values():
-            for s in stmts_of(fi2.node):
-                if isinstance(s, ast.Assign) and any(isinstance(t, ast.Attribute) and t.attr == 'request_id' for t in s.targets):
-                    stores.append((m, fi2, s))
-    ok = len(stores) == 1 and norm(stores[0][2].value) == 'next(_REQ_ID_ITER)' and stores[0][1].qualname == 'Application._dispatch_wsgi'
-    rep.check('R12.c', 'clastic::request_id source', ok, 'request_id is assigned once per request from next(_REQ_ID_ITER)' if ok else
-              'request_id is assigned from something other than next(_REQ_ID_ITER): %s' % [short(s) for _, _, s in stores], app,
-              stores[0][2] if stores else None)
-    dw = app.func('Application._dispatch_wsgi')
-    g = [s for s in stmts_of(dw.node) if isinstance(s, ast.Assign) and norm(s.targets[0]) == 'request.request_guid']
-    ok = len(g) == 1 and norm(g[0].value) == 'int2hexguid(request.request_id)'
-    rep.check('R12.c', fkey(dw, 'request_guid'), ok, 'request_guid derives from this request\'s id' if ok else 'request_guid does not derive from request.request_id', app, dw.node)
-    rq = [s for s in stmts_of(dw.node) if isinstance(s, ast.Assign) and norm(s.targets[0]) == 'request']
-    ok = len(rq) == 1 and norm(rq[0].value) == 'self.request_type(environ)'
-    rep.check('R12.c', fkey(dw, 'fresh request'), ok, 'every call builds its own request object from its own environ' if ok else
-              'the request object is not freshly built from environ', app, dw.node)
 
+
+def check_middleware_self_writes(rep):
+    repo = rep.repo
     # ---- R12.d -----------------------------------------------------------
     for fi2 in sorted(middleware_functions(repo), key=lambda f: f.key):
         effs = [e for e in effects.effects_in(fi2.node) if e.root == 'self']
@@ -151,3 +302,4 @@ def run(rep):
                   'middleware function writes its shared instance per request: %s' % [short(e.node) for e in effs], fi2.mod,
                   effs[0].node if effs else fi2.node)
     rep.floor('R12.d', 9)
+
